@@ -511,6 +511,7 @@ Definition compare_runs (p : program) (opname : name) (io : impl_obs) : option s
                  else Some (v_mismatch "decoded-leaves" [of_nat i])
              | DError, RunError => go (Datatypes.S i) rest
              | DFuel, _ => Some (v_bad "decode-fuel")
+             | DUnmodelled, _ => go (Datatypes.S i) rest
              | _, _ => Some (v_mismatch "decode-status" [of_nat i])
              end
          end
